@@ -193,7 +193,21 @@ func (g *gen) scenario() {
 		}
 		return m
 	}
-	switch g.rng.Intn(9) {
+	switch g.rng.Intn(10) {
+	case 9: // messages sent, the connection lost, a new Logon (the store is refreshed when so configured), one more message,
+		// then a resend request reaching back before the reconnection
+		g.appSend()
+		g.appSend()
+		g.do(L(Sym("flush")))
+		g.do(L(Sym("inclosed")))
+		g.do(L(Sym("connect")))
+		g.incoming(g.base("A", g.tgt()))
+		g.appSend()
+		g.do(L(Sym("flush")))
+		m := g.base("2", g.tgt())
+		m.beginseq = fVal(Int(1))
+		m.endseq = fVal(Int([]int{0, g.snd(), g.snd() - 1}[g.rng.Intn(3)]))
+		g.incoming(m)
 	case 0: // gap; a kept gap fill that jumps by >= 2 and a kept message at its NewSeqNo; then the replays
 		j := 2 + g.rng.Intn(2)
 		g.incoming(g.base("D", t+2+j)) // opens the gap, kept
@@ -447,7 +461,12 @@ func (g *gen) logonExchange() {
 	g.do(L(Sym("connect")))
 	t := g.tgt()
 	m := g.base("A", t)
-	switch g.pick(14, 3, 2, 2, 2, 1) {
+	switch g.pick(14, 3, 2, 2, 2, 1, 2) {
+	case 6:
+		m.reset = fVal(Bool(false)) // ResetSeqNumFlag=N spelled out: not a reset
+		if g.rng.Intn(3) == 0 {
+			m.seq = fVal(Int(t + 1 + g.rng.Intn(3)))
+		}
 	case 1:
 		m.seq = fVal(Int(t + 1 + g.rng.Intn(5))) // gap detected on the Logon itself
 	case 2:
@@ -477,7 +496,9 @@ func genOneSession(rng *rand.Rand, steps int) (Sx, Sx) {
 	if c.begin == 5 {
 		c.applVer = "9"
 	}
-	g := &gen{rng: rng, r: newRig(c), c: c, peerSeq: 1}
+	r0, done := newRigFor(c)
+	defer done()
+	g := &gen{rng: rng, r: r0, c: c, peerSeq: 1}
 	if rng.Intn(8) == 0 {
 		g.appSend() // send while disconnected
 	}
